@@ -149,13 +149,9 @@ def specWire (wb : Workbook) (ig : List Text) : String :=
     | .free => join "," [encText n, "U"]
   join "#" [join "|" cells, join "|" names]
 
-/-- every formula of the workbook is read back by the scanner as the tokens it was written from. -/
-def scanRoundTrip (wb : Workbook) : Bool :=
-  wb.sheets.all fun sh => sh.cells.all fun c =>
-    match c.formula with
-    | some (.plain toks) => scan (renderToks toks) == toks
-    | some (.master _ toks) => scan (renderToks toks) == toks
-    | _ => true
+def wfFlags (wb : Workbook) : String :=
+  let b (x : Bool) : String := if x then "1" else "0"
+  s!"scan:{b (wb.sheets.all fun sh => scanOK sh.cells)},shared:{b (wb.sheets.all fun sh => sharedOK [] sh.cells)},text:{b (wb.sheets.all fun sh => textOK sh.cells)}"
 
 /-- the addresses of the stored cells of the sheets that are not ignored are pairwise different. -/
 def nodupAddresses (wb : Workbook) (ig : List Text) : Bool :=
@@ -169,7 +165,7 @@ def handle (fields : List String) : String :=
     | some ig, some sst, some sheets, some names =>
       let wb : Workbook := ⟨sst, sheets, names⟩
       kv [("impl", implWire (load wb ig)), ("spec", specWire wb ig),
-          ("wf", s!"scan:{if scanRoundTrip wb then 1 else 0},nodup:{if nodupAddresses wb ig then 1 else 0}")]
+          ("wf", wfFlags wb ++ s!",nodup:{if nodupAddresses wb ig then 1 else 0}")]
     | _, _, _, _ => "error=bad-args"
   | ["SCAN", t] =>
     match decText t with
